@@ -1,6 +1,7 @@
 //! C08 / C09 / C07(PHC): the real `process_messages` loop of the writer thread driven by a scripted
 //! message list. Every publication goes through the real `ShmWriter::write` into a segment file and
-//! is read back with a real `ShmReader::snapshot` (both results are recorded and must agree).
+//! is read back with a real `ShmReader::snapshot` (both results are recorded and must agree). The updater
+//! owns the real `ShmWriter` (no wrapper); publications are observed through the shim's controller.
 //!   upd <drift> <n> { r d e o leap interval kind secs nanos phc as_s as_n | m <grace> | p <grace> }*n
 //! -> <k> { as_s as_n va_s va_n bound drift status }*k   | panic
 //!   updt <drift> <n> { <off_ns> <message as above> }*n : the same, but the realtime clock reads
@@ -13,29 +14,31 @@ use clock_bound_d::channels::new_channel_web;
 use clock_bound_d::thread_manager::Context;
 use clock_bound_d::verif_shm_writer as dverif;
 use clock_bound_d::{ChannelId, Message};
-use clock_bound_shm::{ClockErrorBound, ShmReader, ShmWrite, ShmWriter};
+use clock_bound_shm::verif::{self, Access, Reply};
+use clock_bound_shm::{ClockErrorBound, ShmReader, ShmWriter};
 use std::cell::RefCell;
 use std::rc::Rc;
 
-struct Tee {
-    w: ShmWriter,
+/// What the writer side published, captured without wrapping the writer: the updater is given the
+/// real `ShmWriter` itself (so that whatever the updater asks of its writer reaches the real one), and
+/// the verification shim's controller looks at the segment at every closing (even) generation store;
+/// the record is read back through a real `ShmReader` before the writer's next access.
+struct Cap {
+    log: Vec<([i64; 7], [i64; 7])>,
+    pending: Option<[i64; 7]>,
     r: Option<ShmReader>,
     path: std::ffi::CString,
-    log: Rc<RefCell<Vec<(ClockErrorBound, ClockErrorBound)>>>,
     offs: Vec<i64>,
 }
 
-impl ShmWrite for Tee {
-    fn write(&mut self, ceb: &ClockErrorBound) {
-        self.w.write(ceb);
-        if self.r.is_none() {
-            self.r = Some(ShmReader::new(self.path.as_c_str()).expect("reader after first publication"));
-        }
-        let snap = *self.r.as_mut().unwrap().snapshot().expect("snapshot");
-        self.log.borrow_mut().push((*ceb, snap));
-        let k = self.log.borrow().len();
-        if k < self.offs.len() {
-            set_now_plus(self.offs[k]);
+impl Cap {
+    fn flush(&mut self) {
+        if let Some(sent) = self.pending.take() {
+            if self.r.is_none() {
+                self.r = Some(ShmReader::new(self.path.as_c_str()).expect("reader after first publication"));
+            }
+            let snap = *self.r.as_mut().unwrap().snapshot().expect("snapshot");
+            self.log.push((sent, fields(&snap)));
         }
     }
 }
@@ -62,14 +65,33 @@ fn set_now_plus(off: i64) {
 }
 
 pub fn run(toks: &[&str]) -> String {
-    run_with(toks, false)
+    run_with(toks, false, true)
+}
+
+/// upd2 <drift1> <n1> msgs1... <drift2> <n2> msgs2... : two lives of the daemon's writer side over one
+/// segment file (the second instance starts over what the first one left, possibly with another rate)
+/// -> <k1 + k2> records of both lives | panic
+pub fn run_two(toks: &[&str]) -> String {
+    let n1: usize = p(toks[1]);
+    let mut i = 2;
+    for _ in 0..n1 {
+        i += if toks[i] == "r" { 12 } else { 2 };
+    }
+    let a = run_with(&toks[..i], false, true);
+    let b = run_with(&toks[i..], false, false);
+    if a.starts_with("panic") || a.starts_with("MISMATCH") || b.starts_with("panic") || b.starts_with("MISMATCH") {
+        return format!("panic-or-mismatch first=[{}] second=[{}]", a, b);
+    }
+    let (ka, ra) = a.split_once(' ').map(|(k, r)| (k.to_string(), format!(" {}", r))).unwrap_or((a.clone(), String::new()));
+    let (kb, rb) = b.split_once(' ').map(|(k, r)| (k.to_string(), format!(" {}", r))).unwrap_or((b.clone(), String::new()));
+    format!("{}{}{}", p::<usize>(&ka) + p::<usize>(&kb), ra, rb)
 }
 
 pub fn run_timed(toks: &[&str]) -> String {
-    run_with(toks, true)
+    run_with(toks, true, true)
 }
 
-fn run_with(toks: &[&str], timed: bool) -> String {
+fn run_with(toks: &[&str], timed: bool, fresh_file: bool) -> String {
     let drift: u32 = p(toks[0]);
     let n: usize = p(toks[1]);
     let mut i = 2;
@@ -110,22 +132,43 @@ fn run_with(toks: &[&str], timed: bool) -> String {
     }
     dbox.send(&ChannelId::ShmWriter, Message::ThreadAbort).unwrap();
     let path = scratch_dir().join("upd-segment");
-    let _ = std::fs::remove_file(&path);
+    if fresh_file {
+        let _ = std::fs::remove_file(&path);
+    }
     let w = ShmWriter::new(&path).expect("ShmWriter::new");
-    let log = Rc::new(RefCell::new(Vec::new()));
     if let Some(o) = offs.first() {
         set_now_plus(*o);
     }
-    let tee = Tee { w, r: None, path: std::ffi::CString::new(path.to_str().unwrap()).unwrap(), log: log.clone(), offs };
-    let r = std::panic::catch_unwind(std::panic::AssertUnwindSafe(|| dverif::run_updater(ctx, tee, drift)));
+    let cap = Rc::new(RefCell::new(Cap { log: Vec::new(), pending: None, r: None, path: std::ffi::CString::new(path.to_str().unwrap()).unwrap(), offs }));
+    let c2 = cap.clone();
+    verif::install(Some(Box::new(move |a: &Access| {
+        let mut c = c2.borrow_mut();
+        match a {
+            Access::Store16 { addr, val, .. } if *val != 0 && *val % 2 == 0 => {
+                c.flush();
+                // the record sits right behind the generation field (PROTOCOL.md: generation at 14, record at 16)
+                let rec: ClockErrorBound = unsafe { std::ptr::read_unaligned((*addr + 2) as *const ClockErrorBound) };
+                c.pending = Some(fields(&rec));
+                let k = c.log.len() + 1;
+                if k < c.offs.len() {
+                    set_now_plus(c.offs[k]);
+                }
+            }
+            Access::Load16 { .. } => c.flush(),
+            _ => (),
+        }
+        Reply::Pass
+    })));
+    let r = std::panic::catch_unwind(std::panic::AssertUnwindSafe(|| dverif::run_updater(ctx, w, drift)));
+    verif::install(None);
     vclock::enable(false);
     if r.is_err() {
         return "panic".into();
     }
-    let log = log.borrow();
-    let mut out = format!("{}", log.len());
-    for (sent, read) in log.iter() {
-        let (a, b) = (fields(sent), fields(read));
+    cap.borrow_mut().flush();
+    let cap = cap.borrow();
+    let mut out = format!("{}", cap.log.len());
+    for (a, b) in cap.log.iter() {
         if a != b {
             return format!("MISMATCH written={:?} read-back={:?}", a, b);
         }
